@@ -246,17 +246,13 @@ def run(ck):
 
     # ---------------- R8: strict progress (definite consumption, facts about the current byte) ----------------
     ck.rule("C03-R8", "C path automaton with byte facts (strict loop progress)",
-            "in the functions listed (every cursor-driven parser loop that is provably strict today) no iteration can come back to the "
-            "loop condition, be admitted again and re-enter the body unless a call on the way *definitely* consumed input: "
-            "StreamCursor::advance, a helper all of whose paths advance (matchValue), or the true arm of a bool helper whose every "
-            "non-false return advanced (match_literal, match_raw, match_string, match_attribute).  Calls that only may consume "
-            "(match_until, skip_whitespaces, Chunk::parse) do not count; they reset what is known about the byte under the cursor, "
-            "which is otherwise tracked through comparisons with character constants, eof() tests and the post-condition of "
-            "match_until(set) == true", 10)
-    STRICT_FUNCS = {
-        H + "Private::RequestLineStep::apply", H + "Private::ResponseLineStep::apply", H + "Private::HeadersStep::apply",
-        H + "Private::BodyStep::Chunk::parse", H + "Cookie::fromRaw", H + "CookieJar::addFromRaw", H + "Header::CacheControl::parseRaw",
-        H + "Header::Accept::parseRaw", H + "Mime::MediaType::parseRaw", "Pistache::match_until", "Pistache::skip_whitespaces"}
+            "in every cursor-driven parser loop no iteration can come back to the loop condition, be admitted again and re-enter the body "
+            "unless a call on the way *definitely* consumed input: StreamCursor::advance, a helper all of whose paths advance "
+            "(matchValue), or the true arm of a bool helper whose every non-false return advanced (match_literal, match_raw, match_string, "
+            "match_attribute).  match_until and skip_whitespaces may consume nothing and do not count; they reset what is known about the "
+            "byte under the cursor, which is otherwise tracked through comparisons with character constants, eof() tests and the "
+            "post-condition of match_until(set) == true.  A zero-progress iteration is reported only when every branch and call on it is "
+            "modelled (a definite witness); one that passes an unmodelled branch or helper is recorded as inconclusive, not as a violation", 10)
     # named exemptions (reason each): loops whose progress argument is about values this analysis does not track
     R8_EXEMPT = {
         (H + "Header::CacheControl::parseRaw", "do"): "do-while: progress follows from current() == ',' after the directive (value reasoning, see R7)",
@@ -283,16 +279,16 @@ def run(ck):
             back_kinds = {(f.blocks[b].term or {}).get("k") for b in body if (f.blocks[b].term or {}).get("k") == "do" and
                           len(f.blocks[b].succs) == 2 and f.blocks[b].succs[1] not in body}
             line = (hb.term or {}).get("l") or min([e.get("l") for b in body for e in f.blocks[b].elems if e.get("l")] or [0])
-            if prog.owner(f).base not in STRICT_FUNCS:
-                ck.note("C03-R8: loop at %s:%s is in a function that is not in the confirmed list: only the lenient rule R7 applies" % (f.file, line))
-                continue
             ex = R8_EXEMPT.get((f.base, "do")) if "do" in back_kinds else None
             if ex:
                 ck.note("C03-R8: %s do-while exempt: %s" % (f.base, ex))
                 continue
-            stuck = sp.check(f, hdr, body)
-            ck.ob("C03-R8", "%s/loop@%s" % (f.base.replace("Pistache::", ""), line), not stuck, "%s:%s" % (f.file, line), f,
-                  "no zero-progress iteration" if not stuck else
+            stuck, maybe = sp.check(f, hdr, body)
+            if maybe and not stuck:
+                ck.note("C03-R8: loop at %s:%s: strict progress not provable (path through an unmodelled branch or helper reaches line %s); lenient rule R7 applies"
+                        % (f.file, line, maybe[0][1]))
+            ck.ob("C03-R8", "%s/loop@%s" % (prog.owner(f).base.replace("Pistache::", ""), line), not stuck, "%s:%s" % (f.file, line), f,
+                  ("no zero-progress iteration" if not maybe else "no definite zero-progress iteration (inconclusive paths: see notes)") if not stuck else
                   "an iteration of the loop at line %s can come back to the loop condition, be admitted again and reach line %s without any call "
                   "that definitely consumed input: on that input the same bytes are examined forever (and whatever the body appends grows without bound)"
                   % (line, stuck[0][1]))
